@@ -295,6 +295,7 @@ func countDistinct(v []uint64) int64 {
 type foundViolation struct {
 	wireViolation
 	count int
+	more  []wireViolation // further runs with the same signature (other workers), tried if the first does not replay
 }
 
 type workerResult struct {
@@ -638,12 +639,14 @@ func cmdRun(args []string) {
 			g = &foundViolation{wireViolation: v}
 			groups[v.Sig] = g
 			order = append(order, v.Sig)
+		} else if len(g.more) < 3 && v.Tape != nil {
+			g.more = append(g.more, v)
 		}
 		g.count++
 	}
 	kf := loadKnown(*known)
 	exit := 0
-	var reported, knownMatched []string
+	var reported, knownMatched, unreproduced []string
 	for gi, sig := range order {
 		g := groups[sig]
 		matched := false
@@ -684,35 +687,49 @@ func cmdRun(args []string) {
 			}
 			writeJSON(path, rf)
 		} else if g.Tape != nil {
-			writeJSON(path, rf)
-			sargs := []string{"shrink", "-file", path, "-out", path + ".min"}
-			if m := hooks.ShrinkMax[*propID]; m > 0 {
-				sargs = append(sargs, "-max", fmt.Sprint(m), "-budget", "60s")
-			}
-			shr := runWorker(sargs, nil, 10*time.Minute)
-			if b, err := os.ReadFile(path + ".min"); err == nil {
-				var m ReplayFile
-				if json.Unmarshal(b, &m) == nil && m.Tape != nil {
-					m.ReplayCmd, m.OccurredRuns, m.OriginalLen = rf.ReplayCmd, rf.OccurredRuns, rf.OriginalLen
-					rf = m
-				}
-			} else if shr.stderr != "" {
-				fmt.Printf("note: minimisation did not finish: %s\n", trimTo(shr.stderr, 300))
-			}
-			os.Remove(path + ".min")
-			writeJSON(path, rf)
+			cands := append([]wireViolation{g.wireViolation}, g.more...)
 			ok := 0
 			const attempts = 5
-			for a := 0; a < attempts; a++ {
-				rr := runWorker([]string{"replay", "-file", path}, []string{fmt.Sprintf("GOMAXPROCS=%d", []int{1, 4, 16, 2, 8}[a])}, 10*time.Minute)
-				if rr.exitCode == 1 {
-					ok++
+			for ci, cv := range cands {
+				rf.RunIndex, rf.Detail, rf.Tape, rf.OriginalLen, rf.Render = cv.I, cv.Detail, cv.Tape, len(cv.Tape), cv.Render
+				writeJSON(path, rf)
+				sargs := []string{"shrink", "-file", path, "-out", path + ".min"}
+				if m := hooks.ShrinkMax[*propID]; m > 0 {
+					sargs = append(sargs, "-max", fmt.Sprint(m), "-budget", "60s")
 				}
+				shr := runWorker(sargs, nil, 10*time.Minute)
+				if b, err := os.ReadFile(path + ".min"); err == nil {
+					var m ReplayFile
+					if json.Unmarshal(b, &m) == nil && m.Tape != nil {
+						m.ReplayCmd, m.OccurredRuns, m.OriginalLen = rf.ReplayCmd, rf.OccurredRuns, rf.OriginalLen
+						rf = m
+					}
+				} else if shr.stderr != "" {
+					fmt.Printf("note: minimisation did not finish: %s\n", trimTo(shr.stderr, 300))
+				}
+				os.Remove(path + ".min")
+				writeJSON(path, rf)
+				ok = 0
+				for a := 0; a < attempts; a++ {
+					rr := runWorker([]string{"replay", "-file", path}, []string{fmt.Sprintf("GOMAXPROCS=%d", []int{1, 4, 16, 2, 8}[a])}, 10*time.Minute)
+					if rr.exitCode == 1 {
+						ok++
+					}
+				}
+				rf.Reproduced = fmt.Sprintf("%d/%d", ok, attempts)
+				writeJSON(path, rf)
+				if ok > 0 {
+					break
+				}
+				fmt.Printf("note: %s/%s of run %d did not reproduce in %d fresh processes (candidate %d of %d)\n", *propID, sig, cv.I, attempts, ci+1, len(cands))
 			}
-			rf.Reproduced = fmt.Sprintf("%d/%d", ok, attempts)
-			writeJSON(path, rf)
 			if ok == 0 {
-				fatal2("violation %s/%s of run %d did not reproduce in %d fresh processes: uncontrolled nondeterminism in the harness; original: %s", *propID, sig, g.I, attempts, g.Detail)
+				// Not reportable without a replay. Whether this is the harness's own
+				// nondeterminism or that of a defective tree (state carried from run to
+				// run inside the code under test) is decided below.
+				unreproduced = append(unreproduced, fmt.Sprintf("%s of run %d: %s", sig, g.I, trimTo(g.Detail, 300)))
+				os.Remove(path)
+				continue
 			}
 		} else {
 			rf.Reproduced = "hang/death confirmed by a second execution"
@@ -722,6 +739,12 @@ func cmdRun(args []string) {
 		fmt.Printf("VIOLATION property=%s replay=%s\n", *propID, path)
 		reported = append(reported, path)
 		exit = 1
+	}
+	if len(unreproduced) > 0 {
+		if exit == 0 {
+			fatal2("%d violation(s) did not reproduce in fresh processes and none did: uncontrolled nondeterminism; first: %s", len(unreproduced), unreproduced[0])
+		}
+		fmt.Printf("note: %d further violation signature(s) did not reproduce in fresh processes (state carried between runs inside the tree under test?); the reproduced ones stand: %s\n", len(unreproduced), unreproduced[0])
 	}
 	if recheckBad > 0 {
 		if exit == 0 {
